@@ -429,6 +429,12 @@ def run_op(u: Universe, op):
     if mkt not in u.m:
         return "skip"
     m = u.m[mkt]
+    if name == "read":
+        # a strategy looking at its market / account figures (a reader must never change what is reported later)
+        bal = m.get_market_balance()
+        if u.prices is not None:
+            u.broker.get_account_status(u.prices)
+        return bal
     if mkt in ("uni", "squni"):
         sp = m.pool_info.tick_spacing
         base, quote = m.base_token.name, m.quote_token.name
